@@ -587,7 +587,12 @@ func (ev *Ev) specGoCall(fo *types.Func, recv *Value, x *ast.CallExpr) Value {
 	if !c.Flags["pure"] {
 		return ev.errorf(x.Pos(), "Go function %s used in a contract is not declared pure", key)
 	}
-	return ev.u.applyContract(ev, c, sig, recv, args, "spec", x.Pos(), true)
+	out := ev.u.applyContract(ev, c, sig, recv, args, "spec", x.Pos(), true)
+	if out.K == vTuple && len(out.Tuple) > 0 {
+		// a pure function with several results used as a value in a contract: its first result
+		return out.Tuple[0]
+	}
+	return out
 }
 
 // quant handles forall(x.(T), y.(U), body) / exists(...).
